@@ -1,6 +1,8 @@
 package props
 
 import (
+	"time"
+	"github.com/google/reftable/verifvfs/vos"
 	"bytes"
 	"fmt"
 	"os"
@@ -54,6 +56,10 @@ func runC09Restart(c *Ctx, idx int) {
 		dir = c.DiskDir(fmt.Sprintf("c09r-%d", idx))
 	}
 	defer os.RemoveAll(dir)
+	if idx%4 == 1 {
+		vos.MtimeGranularity = 20 * 365 * 24 * time.Hour
+		defer func() { vos.MtimeGranularity = 0 }()
+	}
 	hc := histCase{Prop: c.Prop, Seed: c.Seed, Index: idx, Gen: "runC09Restart", Cfg: gcfg.String()}
 	fail := func(props []string, sig, d string) {
 		h := hc
@@ -199,6 +205,13 @@ func runC09History(c *Ctx, idx int) {
 		r.Count("histories_on_disk_fs", 1)
 	}
 	defer os.RemoveAll(dir)
+	if idx%5 == 2 {
+		// a file system with coarse time stamps: every FileInfo the code obtains carries
+		// the same modification time (files written within one tick / one second)
+		vos.MtimeGranularity = 20 * 365 * 24 * time.Hour
+		defer func() { vos.MtimeGranularity = 0 }()
+		r.Count("histories_with_coarse_mtime", 1)
+	}
 	hc := histCase{Prop: c.Prop, Seed: c.Seed, Index: idx, Gen: "runC09History", Cfg: gcfg.String()}
 	fail := func(props []string, sig, d string) {
 		h := hc
